@@ -2,9 +2,9 @@
 # Runs, for every confirmed seeded change under /verif/seeded, the quick check of the property it breaks
 # (apply to /repo, run, undo).  Writes /verif/seeded/RESULTS.tsv.  /repo must be clean and otherwise unused meanwhile.
 cd /verif
-OUT=seeded/RESULTS.tsv
+OUT=/verif/seeded/RESULTS.tsv
 echo -e "seed\tproperty\tcheck\texit\tviolations\twall_s" > $OUT
-for d in seeded/*/; do
+for d in /verif/seeded/*/; do
   sid=$(basename $d); prop=$(python3 -c "import json;print(json.load(open('$d/meta.json'))['property'])")
   if ! git -C /repo diff --quiet; then echo "/repo dirty"; exit 3; fi
   if ! git -C /repo apply --check $d/patch.diff 2>/dev/null; then echo -e "$sid\t$prop\t$prop\tNOAPPLY\t-\t-" >> $OUT; continue; fi
